@@ -304,14 +304,16 @@ fn run_check(id: &str, args: &Args) -> i32 {
     match id {
         "C13" => {
             let agg = comp::run_cases("C13", "c13", comp::c13_cases(&args.tier), comp::c13_case, args.threads);
-            finish(comp_outcome(
-                "C13",
+            let a = comp_outcome(
+                "C13-estimator",
                 args,
                 agg,
                 "every sequence (length <= len) over {4 keys chosen to collide / not collide per width, reset, clear} for each counter width, plus 40-fold saturation runs over 71 hashes; states = distinct counter arrays reached; non-trivial = some counter non-zero / an aging reset happened",
                 t0,
                 &[],
-            ))
+            );
+            let b = spec_outcome(checks::c13_cache(&args.tier, model::Flavor::Sync), args, t0, args.secs / 4);
+            finish(merge("C13", vec![a, b], t0))
         }
         "C14" => {
             let agg = comp::run_cases("C14", "c14", comp::c14_cases(&args.tier), comp::c14_case, args.threads);
@@ -319,7 +321,7 @@ fn run_check(id: &str, args: &Args) -> i32 {
                 "C14",
                 args,
                 agg,
-                "(capacity, rate) grid x 7 structured hash families: every element re-checked after every add (full prefix for n<=1000), reset/clear emptiness over all added + 20000 probes; false-positive count over a fixed enumeration of well-mixed never-added probes, bound 3p+0.005; non-trivial = filter non-empty / at least one false positive",
+                "(capacity, rate in {1e-9, 1e-6, 1e-4, 0.001, 0.01, 0.1, 0.5, 0.72, 0.9, 0.99}: 30 down to 1 probes per hash) grid x 7 structured hash families, hashes entered alternately through add and contains_or_add: every element re-checked after every add (full prefix for n<=1000), reset/clear emptiness over all added + 20000 probes; false-positive count over a fixed enumeration of well-mixed never-added probes, bound 3p+0.005; non-trivial = filter non-empty / at least one false positive",
                 t0,
                 &["the false-positive clause is checked for well-mixed probe hashes (splitmix64 enumeration), against add-sets from three families"],
             ))
@@ -331,7 +333,7 @@ fn run_check(id: &str, args: &Args) -> i32 {
                 "C07-policy",
                 args,
                 agg,
-                "real LFUPolicy::add (driven without its worker thread): residents n in 0..=7, cost vectors {1,3}^n, popularity vectors {0,1,3}^n built by real increments (all for n<=5 quick / n<=6 thorough, structured subsets above), max_cost in {sum-1 (over budget), sum, sum+1}, incoming cost {1,3,5}, incoming hits 0..=4; every sampling round is observed (cfg-guarded observer) and checked against the actual estimates read from the real sketch; non-trivial = at least one sampling round ran",
+                "real LFUPolicy::add (driven without its worker thread): residents n in 0..=7, cost vectors {1,3}^n and (n<=4 quick / n<=6 thorough) {0,2}^n and {-1,2}^n (residents charged nothing or less among the candidates), popularity vectors {0,1,3}^n built by real increments (all for n<=5 quick / n<=6 thorough, structured subsets above), max_cost in {sum-1 (over budget), sum, sum+1}, incoming cost {0,1,3,5}, incoming hits 0..=4; every sampling round is observed (cfg-guarded observer) and checked against the actual estimates read from the real sketch; non-trivial = at least one sampling round ran",
                 t0,
                 &["popularity estimates are read from the real sketch (1024 counters, no collisions among the <=8 keys used), so estimator collisions cannot cause false alarms", "phantom re-samples of an already evicted candidate are tolerated (they evict nothing)"],
             );
@@ -363,7 +365,23 @@ fn run_check(id: &str, args: &Args) -> i32 {
             let b = c11_differential(args, t0, model::Flavor::Sync, "C11");
             finish(merge("C11", vec![a, b], t0))
         }
-        "C12" => run_spec(checks::c12(&args.tier, model::Flavor::Sync), args, t0),
+        "C12" => {
+            // close() is written separately for the two flavours: the async corpus is part of this
+            // check (quick: every 4th program at preemption bound <= 1; thorough: all of them)
+            let a = spec_outcome(checks::c12(&args.tier, model::Flavor::Sync), args, t0, args.secs * 2 / 3);
+            let mut spec = checks::c12(&args.tier, model::Flavor::Async);
+            let quick = args.tier == "quick";
+            if quick {
+                spec.jobs = spec.jobs.into_iter().enumerate().filter(|(i, _)| i % 4 == 0).map(|(_, j)| j).collect();
+                for j in spec.jobs.iter_mut() {
+                    j.bounds.iter_mut().for_each(|b| *b = (*b).min(1));
+                }
+            }
+            spec.rule = format!("[async flavour{}] {}", if quick { ": every 4th program, bounds <= 1" } else { "" }, spec.rule);
+            let mut b = spec_outcome(spec, args, t0, args.secs / 3);
+            b.property = "C12-async".into();
+            finish(merge("C12", vec![a, b], t0))
+        }
         "C17" => run_spec(checks::c17(&args.tier, model::Flavor::Sync), args, t0),
         "C15" => run_spec(checks::c15(&args.tier, model::Flavor::Sync), args, t0),
         "C20" => run_spec(checks::c20(&args.tier, model::Flavor::Sync), args, t0),
